@@ -294,7 +294,7 @@ class LemmaCtx(Ctx):
         return self.st.fail("lemma:%s/%s" % (self.name, name), detail, status=status, kind="lemma")
 
 
-def run_lemma(name, fn, case, max_paths=400):
+def run_lemma(name, fn, case, max_paths=400, max_seconds=900):
     """a specification-level lemma: fn(ctx) builds its hypotheses and emits obligations; like a
     function body it is explored along every feasible path"""
     label = "lemma:%s%s" % (name, ("[" + ",".join("%s=%s" % (k, case[k]) for k in sorted(case)) + "]") if case else "")
@@ -305,6 +305,9 @@ def run_lemma(name, fn, case, max_paths=400):
     while worklist:
         if res.paths >= max_paths:
             res.undecided.append(("path budget exhausted", []))
+            break
+        if time.time() - t0 > max_seconds:
+            res.undecided.append(("time budget exhausted after %d paths" % res.paths, []))
             break
         trace = worklist.pop()
         st = PathState(engine, trace)
